@@ -27,7 +27,7 @@ NONTRIVIAL = {
     "C04": ["C04:invalid_input_processed"],
 }
 
-PUPPET_DIRECTED = ["d01", "d02", "d03", "d04", "d07", "d09", "d10", "d13", "d15", "d17", "d18", "d19", "d20"]
+PUPPET_DIRECTED = ["d01", "d02", "d03", "d04", "d07", "d09", "d10", "d13", "d15", "d17", "d18", "d19", "d20", "d21"]
 
 
 def puppet_mix(rand_count, directed_each, **params):
